@@ -72,4 +72,16 @@ theorem fin_wait_bounded :
     (restingSelects sel_Close).length = 1 ∧ go_Close.length = 1 ∧
     (calls_Close.idxOf "context.WithTimeout") < (calls_Close.idxOf "g.sendPacket") := by decide
 
+/-- **a loop goroutine leaves the wait group before it calls Close** (Close waits
+    on that group: a goroutine that called Close while still counted would wait
+    for itself), in a deferred function, so on every way out of the loop -/
+theorem loops_release_before_close :
+    (skel_start.filter (· == "go")).length = 2 ∧
+    (skel_start.filter (· == "call:g.wg.Add")).length = 2 ∧
+    (skel_start.filter (· == "call:g.wg.Done")).length = 2 ∧
+    ((skel_start.drop (skel_start.idxOf "go")).take 6) =
+      ["go", "call:(func() literal)", "defer", "call:(func() literal)", "call:g.wg.Done", "if"] ∧
+    ((skel_start.drop (skel_start.idxOf "call:g.receivePacketsForever")).dropWhile (· != "go")).take 6 =
+      ["go", "call:(func() literal)", "defer", "call:(func() literal)", "call:g.wg.Done", "if"] := by decide
+
 end Lnc.Inst.C12
